@@ -616,6 +616,72 @@ class GeminiServerProtocol(asyncio.Protocol):
 
         client_ip = self.peer_name[0] if self.peer_name else "unknown"
 
+        # Uploads pass the same middleware chain as Gemini requests before the
+        # upload handler may touch anything
+        if self.middleware:
+            try:
+                task = asyncio.create_task(
+                    self.middleware.process_request(
+                        self.titan_request.normalized_url,
+                        client_ip,
+                        self.titan_request.client_cert_fingerprint,
+                    )
+                )
+                task.add_done_callback(
+                    lambda t: self._handle_titan_middleware_result(t, client_ip)
+                )
+            except RuntimeError:
+                # No event loop running: the upload handler could not run either
+                logger.warning(
+                    "titan_upload_skipped",
+                    client_ip=client_ip,
+                    reason="no_event_loop",
+                )
+                self._send_error_response(
+                    StatusCode.TEMPORARY_FAILURE,
+                    "Server error: upload handler requires event loop",
+                )
+            return
+
+        self._start_titan_upload(client_ip)
+
+    def _handle_titan_middleware_result(self, task: asyncio.Task, client_ip: str) -> None:
+        """Handle the middleware verdict for a Titan upload.
+
+        Args:
+            task: The completed middleware task.
+            client_ip: The client's IP address.
+        """
+        try:
+            allow, error_response = task.result()
+
+            if not allow:
+                self._send_middleware_refusal(error_response)
+                return
+
+            self._start_titan_upload(client_ip)
+
+        except Exception as e:
+            logger.error(
+                "middleware_error",
+                client_ip=client_ip,
+                error=str(e),
+                exception_type=type(e).__name__,
+            )
+            self._send_error_response(StatusCode.TEMPORARY_FAILURE, "Middleware error")
+
+    def _start_titan_upload(self, client_ip: str) -> None:
+        """Hand the (admitted) Titan request to the upload handler.
+
+        Args:
+            client_ip: The client's IP address.
+        """
+        if not self.upload_handler or not self.titan_request:
+            self._send_error_response(
+                StatusCode.TEMPORARY_FAILURE, "Upload handler error"
+            )
+            return
+
         try:
             # Create async task for upload handler
             task = asyncio.create_task(
